@@ -15,6 +15,7 @@ import MdpaxV.Model.Shipped
 import MdpaxV.Model.Probs
 import MdpaxV.Model.Store
 import MdpaxV.Model.Ckpt
+import MdpaxV.Model.Crash
 open MdpaxV
 
 /-! parsing / printing -/
@@ -150,6 +151,17 @@ def fErr : RestoreErr → String
   | .fileNotFound => "error=FileNotFoundError"
   | .noCheckpoint => "error=ValueError"
   | .missingStep => "error=missing-step"
+
+def pEvent (t : String) : Except String FsEvent :=
+  match t.splitOn ":" with
+  | ["mk", k] => do pure (.mkTmp (← pNat k))
+  | ["commit", k] => do pure (.commit (← pNat k))
+  | ["delstart", k] => do pure (.delStart (← pNat k))
+  | ["deldone", k] => do pure (.delDone (← pNat k))
+  | _ => throw s!"bad event {t}"
+
+def fEvent : FsEvent → String
+  | .mkTmp k => s!"mk:{k}" | .commit k => s!"commit:{k}" | .delStart k => s!"delstart:{k}" | .delDone k => s!"deldone:{k}"
 
 def handle (d : DState) (line : String) : Except String (DState × String) := do
   let toks := (line.trimAscii.toString.splitOn " ").filter (· ≠ "")
@@ -297,6 +309,15 @@ def handle (d : DState) (line : String) : Except String (DState × String) := do
           | .ok (_, snap) =>
             let sv' := { sv with st := restoredStateK sv.kind snap }
             pure ({ d with solvers := (sid, sv') :: d.solvers.filter (·.1 ≠ sid) }, "ok " ++ fState sv'.st false 0 [])
+    | "accepts" => do
+        -- conformance of an observed operation log with the store protocol; also the state after every prefix
+        let evs ← pList pEvent (← arg a "evs")
+        let ok := accepts {} evs
+        let lat := (List.range (evs.length + 1)).map fun n => match (({} : Fs).run (evs.take n)).latest with | some l => toString l | none => "_"
+        pure (d, s!"accepts={ok} latest_after_prefix={",".intercalate lat}")
+    | "fstrace" => do
+        let m ← pNat (← arg a "m"); let saves ← pList pNat (← arg a "saves")
+        pure (d, s!"events={fList fEvent (protoTrace m [] saves)}")
     | "qrow" => do
         let p ← getP d (← arg a "id")
         let γ ← pRat (← arg a "gamma"); let V ← pList pRat (← arg a "V"); let s ← pNat (← arg a "s")
